@@ -259,7 +259,9 @@ func (w *World) visitInstr(fr *frame, instr ssa.Instruction) continuation {
 	case *ssa.If:
 		c := fr.get(instr.Cond).(*Term)
 		succ := 1
-		if w.decideBool(c, w.posLabel(fr, instr)) {
+		if c == w.tt.T {
+			succ = 0
+		} else if c != w.tt.F && w.decideBool(c, w.posLabel(fr, instr)) {
 			succ = 0
 		}
 		fr.prevBlock, fr.block = fr.block, fr.block.Succs[succ]
@@ -284,7 +286,7 @@ func (w *World) visitInstr(fr *frame, instr ssa.Instruction) continuation {
 		w.spawn(fr, fn, args)
 
 	case *ssa.MakeChan:
-		sz := w.concreteInt(fr, fr.get(instr.Size), "chan size")
+		sz := w.allocSize(fr, fr.get(instr.Size), instr.Size.Type())
 		fr.set(instr, w.newChan(int(sz)))
 
 	case *ssa.Alloc:
@@ -293,8 +295,8 @@ func (w *World) visitInstr(fr *frame, instr ssa.Instruction) continuation {
 		fr.set(instr, cell)
 
 	case *ssa.MakeSlice:
-		n := w.concreteInt(fr, fr.get(instr.Len), "make len")
-		c := w.concreteInt(fr, fr.get(instr.Cap), "make cap")
+		n := w.allocSize(fr, fr.get(instr.Len), instr.Len.Type())
+		c := w.allocSize(fr, fr.get(instr.Cap), instr.Cap.Type())
 		if n < 0 || c < n || c > 1<<26 {
 			w.rtPanic(fr, "makeslice: len out of range")
 		}
@@ -409,7 +411,7 @@ func (w *World) prepareCall(fr *frame, call *ssa.CallCommon) (fn Value, args []V
 		if recv.t == nil {
 			w.rtPanic(fr, "invalid memory address or nil pointer dereference (method "+call.Method.Name()+" invoked on nil interface)")
 		}
-		f := w.prog.LookupMethod(recv.t, call.Method.Pkg(), call.Method.Name())
+		f := w.lookupMethod(recv.t, call.Method.Pkg(), call.Method.Name())
 		if f == nil {
 			w.unsupported(fr, fmt.Sprintf("method set for dynamic type %v does not contain %s", recv.t, call.Method))
 		}
@@ -642,4 +644,23 @@ func lookupIntrinsic(fn *ssa.Function, name string) intrinsic {
 		}
 	}
 	return nil
+}
+
+// lookupMethod is a non-panicking prog.LookupMethod (nil when T has no such method).
+func (w *World) lookupMethod(T types.Type, pkg *types.Package, name string) *ssa.Function {
+	ms := w.prog.MethodSets.MethodSet(T)
+	sel := ms.Lookup(pkg, name)
+	if sel == nil && pkg == nil {
+		// exported-name lookup without a package
+		for i := 0; i < ms.Len(); i++ {
+			if ms.At(i).Obj().Name() == name {
+				sel = ms.At(i)
+				break
+			}
+		}
+	}
+	if sel == nil {
+		return nil
+	}
+	return w.prog.MethodValue(sel)
 }
